@@ -187,6 +187,13 @@ func DecodeClaimsFromCBOR(buf []byte) (IClaims, error) {
 		return nil, err
 	}
 
+	// A claims-set is a CBOR map. Anything else that is well-formed (e.g.
+	// null or undefined) would otherwise be silently decoded into an empty
+	// claims-set.
+	if !isCBORMap(buf) {
+		return nil, errors.New("CBOR-encoded claims-set is not a map")
+	}
+
 	entry, ok := profilesRegister[selector.Profile]
 	if !ok {
 		return nil, fmt.Errorf("unknown profile: %q", selector.Profile)
@@ -222,6 +229,38 @@ func DecodeAndValidateClaimsFromJSON(buf []byte) (IClaims, error) {
 	}
 
 	return claims, nil
+}
+
+// isCBORMap returns true if the well-formed CBOR data item in buf is a map,
+// possibly enclosed in one or more tags.
+func isCBORMap(buf []byte) bool {
+	const (
+		majorTypeMap = 5
+		majorTypeTag = 6
+	)
+
+	for len(buf) > 0 && buf[0]>>5 == majorTypeTag {
+		headLen := 1
+
+		switch buf[0] & 0x1f {
+		case 24:
+			headLen = 2
+		case 25:
+			headLen = 3
+		case 26:
+			headLen = 5
+		case 27:
+			headLen = 9
+		}
+
+		if len(buf) < headLen {
+			return false
+		}
+
+		buf = buf[headLen:]
+	}
+
+	return len(buf) > 0 && buf[0]>>5 == majorTypeMap
 }
 
 // Deprecated: use DecodeClaimsFromJSON instead.
